@@ -24,6 +24,10 @@ def run(check):
     check.run_rule('C05.R2', lambda c: rule_parameter_fields(c, 'C05.R2'))
     check.run_rule('C05.R3', lambda c: rule_scopes(c, 'C05.R3'))
     check.run_rule('C05.R4', lambda c: rule_evaluation_order(c, 'C05.R4'))
+    from ..rules_visitor import rule_enclosing_lookup
+    check.run_rule('C05.R9d', lambda c: rule_enclosing_lookup(c, 'C05.R9'))
+    from ..rules_visitor import rule_recheck_table
+    check.run_rule('C05.R9c', lambda c: rule_recheck_table(c, 'C05.R9'))
     from ..rules_visitor import rule_prescan_exhaustive
     check.run_rule('C05.R4b', lambda c: rule_prescan_exhaustive(c, 'C05.R4'))
     check.run_rule('C05.R5', lambda c: rule_invalidation_tables(c, 'C05.R5'))
